@@ -34,6 +34,16 @@ func (f *Flow) Inlining(p *core.Program, info *types.Info, scope ast.Node, pkgPa
 	return f
 }
 
+// both returns the facts of the condition as written and, when the condition
+// can be seen through (predicate helper, hoisted bool local), those of the expansion too.
+func (f *Flow) both(e ast.Expr, val bool) []cfgq.Fact {
+	out := cfgq.Facts(e, val)
+	if x := f.expand(e); x != e {
+		out = append(out, cfgq.Facts(x, val)...)
+	}
+	return out
+}
+
 func (f *Flow) expand(e ast.Expr) ast.Expr {
 	if f.Expand != nil {
 		return f.Expand(e)
@@ -73,7 +83,7 @@ func (f *Flow) Facts(b *cfg.Block, succ int) []cfgq.Fact {
 			return nil
 		}
 		if s.Tag == nil {
-			return cfgq.Facts(f.expand(e), succ == 0)
+			return f.both(e, succ == 0)
 		}
 		return []cfgq.Fact{{Expr: &ast.BinaryExpr{X: s.Tag, Op: token.EQL, Y: e}, Val: succ == 0}}
 	}
@@ -81,7 +91,7 @@ func (f *Flow) Facts(b *cfg.Block, succ int) []cfgq.Fact {
 	case cfg.KindSelectCaseBody, cfg.KindRangeBody:
 		return nil
 	}
-	return cfgq.Facts(f.expand(e), succ == 0)
+	return f.both(e, succ == 0)
 }
 
 // Alts returns atoms of which at least one holds when cond evaluates to val
@@ -123,7 +133,7 @@ func (f *Flow) alts(b *cfg.Block, succ int) []cfgq.Fact {
 			return nil
 		}
 	}
-	return Alts(f.expand(e), succ == 0)
+	return Alts(e, succ == 0)
 }
 
 // Edge builds an AvoidEdge predicate: the edge establishes a fact accepted by
@@ -135,13 +145,27 @@ func (f *Flow) Edge(match func(cfgq.Fact) bool) func(*cfg.Block, int) bool {
 				return true
 			}
 		}
+		all := func(al []cfgq.Fact) bool {
+			for _, ft := range al {
+				if !match(ft) {
+					return false
+				}
+			}
+			return len(al) > 0
+		}
 		al := f.alts(b, s)
-		for _, ft := range al {
-			if !match(ft) {
-				return false
+		if all(al) {
+			return true
+		}
+		// the same edge seen through predicate helpers / hoisted locals
+		if len(b.Nodes) > 0 && len(al) > 0 {
+			if e, ok := b.Nodes[len(b.Nodes)-1].(ast.Expr); ok {
+				if x := f.expand(e); x != e {
+					return all(Alts(x, s == 0))
+				}
 			}
 		}
-		return len(al) > 0
+		return false
 	}
 }
 
